@@ -89,3 +89,18 @@ Require Import BV.proofs.GatewayPos_proofs.
 Theorem c10_command_after_failure_refused : forall st l u, e_app_cb st = true -> In u l -> is_failure u ->
   gstep (fst (gstep st (GBatch l))) GCommand = (fst (gstep st (GBatch l)), [GCmdRaise]).
 Proof. exact command_after_failure_refused. Qed.
+
+(* Gateway.send_data as emitted from its source (gen/GenGatewayAsyncFn.v): one call of the ASH layer's send_data with
+   the same bytes and nothing else; however that call ends -- in particular with the NcpFailure of a failed link --
+   is how send_data ends: the failure reaches the command being sent, nothing is swallowed *)
+Require Import BV.gen.GenGatewayAsyncFn BV.proofs.GatewayAsyncSrc_proofs.
+Theorem c10_source_send_data : forall ra rf sa sf op run gw cb eff data sent,
+  py_Gateway_send_data (ra, rf, sa, sf, op, run, gw, cb, eff) data sent
+  = ((ra, rf, sa, sf, op, run, gw, cb, eff ++ [PAshSendData data]),
+     match sent with DReturn => AReturn | DRaise e => ARaise e end).
+Proof. exact src_send_data. Qed.
+(* a reset request on a closed transport raises at once (NcpFailure out of _write_frame), before any future exists *)
+Theorem c10_source_reset_closed : forall ra rf sa sf run gw cb eff, ra = false ->
+  py_Gateway_reset_begin (ra, rf, sa, sf, false, run, gw, cb, eff)
+  = ((false, rf, sa, sf, false, run, gw, cb, eff), ARaise EXNcpFailure).
+Proof. exact src_reset_begin_closed. Qed.
